@@ -311,6 +311,12 @@ class Report:
         self.known.append(text)
 
     def finish(self):
+        # an obligation that is not discharged is never silent: if the harness found no failing input for it, the violation
+        # names the obligations that no longer check
+        if not self.violations and any(not ok for _, ok, _ in self.obligations):
+            self.violation("undischarged", {"kind": "broken-obligation",
+                                            "obligation": "; ".join(n for n, ok, _ in self.obligations if not ok),
+                                            "detail": [[n, d] for n, ok, d in self.obligations if not ok]}, no_input=True)
         wall = time.time() - self.t0
         n_ob = len(self.obligations)
         n_ok = sum(1 for o in self.obligations if o[1])
